@@ -62,6 +62,9 @@ LeavesOf(f) ==
       [] f = "shadow" -> {Name("length"), Name("A"), Lit(3)}
       \* sub-chains that are fed several times, each time a stream of several stacks: multi-yield chunks as leaves
       [] f = "refeed" -> {P12, T2, T3, Lit(7), Emp, W("dup"), W("drop")}
+      \* infix comparisons whose operands yield no value, one value, several values on both sides of the bound:
+      \* `A op B' asks whether SOME pair of yields satisfies op, `!(A op B)' whether NONE does
+      [] f = "cmp" -> {Lit(1), Lit(2), E12, Cat(EList, W("elem")), Cat(Seq12, Cat(W("elem"), Inc))}
 
 UnaryOf(f) ==
     CASE f = "altor" -> {"cap", "sub?", "opt", "let1"}
@@ -74,6 +77,7 @@ UnaryOf(f) ==
       [] f = "upvals" -> {"bapply", "bapplyX", "bapplyY"}
       [] f = "scopes" -> {"letA", "letB", "scopeA", "subA", "capA", "sub?", "fmt1"}
       [] f = "refeed" -> {"let1", "fmt1", "opt", "star", "sub?"}
+      [] f = "cmp" -> {"sub?", "sub!", "cap"}
       [] f = "shadow" -> {"bapply", "scopeL", "letL", "letFcall"}
       [] f = "simp" -> {"opt", "cap", "sub?", "fmts"}
       [] f = "scale" -> {}
@@ -88,6 +92,7 @@ BinaryOf(f) ==
       [] f = "upvals" -> {"cat"}
       [] f = "scopes" -> {"cat", "eq", "alt", "or", "fmt3"}
       [] f = "refeed" -> {"cat", "or"}
+      [] f = "cmp" -> {"lt", "le", "gt", "ge", "eq", "ne"}
       [] f = "shadow" -> {"cat"}
       [] f = "simp" -> {"cat", "alt", "or"}
       [] f = "scale" -> {}
@@ -126,6 +131,10 @@ MkBinary(b, x, y) ==
       [] b = "or"  -> Or(x, y)
       [] b = "eq"  -> Infix("==", x, y)
       [] b = "lt"  -> Infix("<", x, y)
+      [] b = "le"  -> Infix("<=", x, y)
+      [] b = "gt"  -> Infix(">", x, y)
+      [] b = "ge"  -> Infix(">=", x, y)
+      [] b = "ne"  -> Infix("!=", x, y)
       [] b = "if2" -> If(x, y, Emp)
       [] b = "fmt3" -> Fmt(<<FExp(x), FLit(<<",">>), FExp(y)>>)
 
@@ -144,7 +153,7 @@ AllPS(f, n) == UNION {PS(f, i) : i \in 1..n}
 RECURSIVE Single(_)
 RECURSIVE SingleParts(_, _)
 Single(p) ==
-    CASE p.k \in {"emp", "lit", "str", "posw", "cap", "sub", "infix", "block"} -> TRUE
+    CASE p.k \in {"emp", "lit", "str", "posw", "cap", "sub", "infix", "block", "elist"} -> TRUE
       [] p.k = "name" -> p.w # "F"       \* F names a block, which may yield many
       [] p.k = "word" -> p.w \notin {"elem", "relem", "apply"}
       [] p.k = "cat" -> Single(p.a) /\ Single(p.b)
@@ -173,7 +182,7 @@ NoPlainAlt(p) ==
 RECURSIVE OrderFixed(_)
 RECURSIVE OFParts(_, _, _)
 OrderFixed(p) ==
-    CASE p.k \in {"emp", "lit", "str", "word", "posw", "name", "block"} -> TRUE
+    CASE p.k \in {"emp", "lit", "str", "word", "posw", "name", "block", "elist"} -> TRUE
       [] p.k = "cat" -> OrderFixed(p.a) /\ OrderFixed(p.b) /\ (Single(p.a) \/ NoPlainAlt(p.b))
       [] p.k \in {"alt", "or", "infix"} -> OrderFixed(p.a) /\ OrderFixed(p.b)
       [] p.k \in {"cap", "sub", "scope", "let", "opt", "letf", "bapply"} -> OrderFixed(p.a)
@@ -236,7 +245,7 @@ RECURSIVE UsesBlocksParts(_, _)
 UsesBlocks(p) ==
     CASE p.k \in {"letf", "bapply", "block"} -> TRUE
       [] p.k = "name" -> p.w = "F"
-      [] p.k \in {"emp", "lit", "str", "word", "posw"} -> FALSE
+      [] p.k \in {"emp", "lit", "str", "word", "posw", "elist"} -> FALSE
       [] p.k \in {"cat", "alt", "or", "infix"} -> UsesBlocks(p.a) \/ UsesBlocks(p.b)
       [] p.k = "if" -> UsesBlocks(p.c) \/ UsesBlocks(p.a) \/ UsesBlocks(p.b)
       [] p.k = "fmt" -> UsesBlocksParts(p.parts, 1)
